@@ -715,6 +715,9 @@ class Gen:
                 v[p["name"]] = kd["v"] if r.random() < 0.6 else 0
             elif k == "physconst" and r.random() < 0.1:
                 v[p["name"]] = kd["v"] if r.random() < 0.6 else 1
+            elif k == "reserved" and r.random() < 0.08:
+                # (a decoded message handed back to the encoder carries values for the reserved parameters)
+                v[p["name"]] = r.choice([0, 1, (1 << kd["bl"]) - 1])
         if stream == "illtyped" and r.random() < 0.2:
             v["unknown_param"] = 1
         return v
